@@ -68,3 +68,58 @@ def run(ctx):
               rejected=len(rejects), clauses=sorted(CLAUSES))
     ctx.samples.append({"chain": cases[len(cases) // 2]})
     ctx.extra["exhaustive"] = True
+    squeeze_stage(ctx, quick)
+
+
+SQ_CLAUSES = {"panic", "apply", "inverse", "bounds", "solid"}
+
+
+def squeeze_stage(ctx, quick):
+    """toolbox3d axis maps: TLC enumerates squeezes / pinches / smart squeezes over whole-unit data
+    (Squeeze.tla holds the documented semantics), the harness probes the real transforms on the
+    half-unit lattice, SqueezeJudge decides in integers."""
+    import random
+    g = ctx.tlc("G-squeeze", "solids/SqueezeGen", "SPECIFICATION Spec\nCONSTANTS\n  Level = %d\nCHECK_DEADLOCK FALSE\n"
+                % (0 if quick else 1), workers=16, timeout=1500, tags=("CASE",), heap="8g")
+    ctx.require_clean(g, "G-squeeze")
+    ctx.add_tlc_counts(g)
+    cases = sorted({c[1] for c in g.tagged("CASE")})
+    total = len(cases)
+    smart = [c for c in cases if '"smart"' in c]
+    rest = [c for c in cases if '"smart"' not in c]
+    if not smart or not rest:
+        raise Infra("squeeze generator produced no cases")
+    want = 2500 if quick else 40000
+    if len(smart) > want:
+        smart = random.Random(ctx.seed).sample(smart, want)
+    cases = rest + smart
+    cpath = os.path.join(ctx.dir, "cases-squeeze.ndjson")
+    with open(cpath, "w") as fh:
+        for c in cases:
+            fh.write(c + "\n")
+    rpath = os.path.join(ctx.dir, "records-squeeze.ndjson")
+    spath = os.path.join(ctx.dir, "stats-squeeze.json")
+    ctx.drv(["c05-squeeze", "in=" + cpath, "out=" + rpath, "stats=" + spath])
+    stats = json.load(open(spath))
+    j = ctx.tlc("J-squeeze", "solids/SqueezeJudge", JUDGE, data={"records.ndjson": rpath}, workers=16, timeout=3000,
+                heap="10g")
+    ctx.require_clean(j, "J-squeeze")
+    ctx.add_tlc_counts(j)
+    if j.distinct != 2 * stats["records"]:
+        raise Infra("squeeze judge examined %d states for %d records" % (j.distinct, stats["records"]))
+    rejects = [x for x in j.tagged("REJECT") if x[3] in SQ_CLAUSES]
+    if rejects:
+        recs = {r["id"]: r for r in vlib.read_ndjson(rpath)}
+        for (_, rid, _l, clause) in rejects:
+            rec = recs[rid]
+            key = "toolbox3d.%s:%s" % (rec["site"], clause)
+            ctx.violation(key, "%s %s: clause %s%s" % (rec["site"], json.dumps(rec["case"]), clause,
+                                                     (" panic=" + rec["panic"][:160]) if rec["panic"] else ""),
+                          {"spec": "solids/SqueezeJudge.tla", "clause": clause, "record": rec})
+    ctx.counts["traces_validated_against_impl"] += stats["records"]
+    ctx.counts["evaluations"] += stats["records"]
+    ctx.counts["distinct_nontrivial"] += len(smart)
+    ctx.stage("squeeze", kind="R+V", generated=total, used=len(cases), records=stats["records"], rejected=len(rejects),
+              sites={k[5:]: v for k, v in stats.items() if k.startswith("site:")}, panics=stats.get("panics", 0),
+              clauses=sorted(SQ_CLAUSES))
+    ctx.samples.append({"squeeze": json.loads(smart[len(smart) // 2])})
